@@ -98,7 +98,7 @@ fn round_trips(run: &Run) {
     }
 }
 
-pub const RULE: &str = "all 20480 move values and all 64 squares: rendering = source, destination, optional lower-case promotion letter, and parses back to the identical value; every string of length <= L (L = 5 quick, 6 thorough) over a 34-symbol alphabet {a-h, 1-8, q r n i 9 0 Q B x - space, LF, CR, the 2/3/4-byte characters e-acute, euro sign, an emoji, and two 2-byte characters whose low byte is 'q' and '1'} walked as a trie (every prefix is a case), plus every well-formed 4-character move text followed by every suffix of up to 2 (thorough 3) symbols over that alphabet extended by 14 more symbols (2/3/4-byte characters whose low byte equals r, n, b, a, h, 8, q, 4; tab, =, +, #) and every square text followed by every suffix of up to 4 (5) symbols: no panic in ChessMove::from_str / Square::from_str, and Ok(v) implies v.to_string() is a prefix of the input. distinct_nontrivial = strings on which at least one of the two parsers succeeded";
+pub const RULE: &str = "all 20480 move values and all 64 squares: rendering = source, destination, optional lower-case promotion letter, and parses back to the identical value; every string of length <= L (L = 5 quick, 6 thorough) over a 34-symbol alphabet {a-h, 1-8, q r n i 9 0 Q B x - space, LF, CR, the 2/3/4-byte characters e-acute, euro sign, an emoji, and two 2-byte characters whose low byte is 'q' and '1'} walked as a trie (every prefix is a case), plus every well-formed 4-character move text followed by every suffix of up to 2 (thorough 3) symbols over that alphabet extended by 14 more symbols (2/3/4-byte characters whose low byte equals r, n, b, a, h, 8, q, 4; tab, =, +, #) and every square text followed by every suffix of up to 3 (4) symbols: no panic in ChessMove::from_str / Square::from_str, and Ok(v) implies v.to_string() is a prefix of the input. distinct_nontrivial = strings on which at least one of the two parsers succeeded";
 
 pub fn run(tier: Tier) -> i32 {
     let run = Arc::new(Run::new("C13", tier, COUNTERS));
@@ -122,11 +122,11 @@ pub fn run(tier: Tier) -> i32 {
         })
         .reduce(|| (0, 0), |a, b| (a.0 + b.0, a.1 + b.1));
     // long texts: every well-formed 4-character move text (4096) followed by every suffix of up to
-    // S symbols, and every square text followed by every suffix of up to S + 2 symbols
+    // S symbols, and every square text followed by every suffix of up to S + 1 symbols
     let slen = tier.pick(2usize, 3usize);
     let mut suffixes: Vec<String> = vec![String::new()];
     let mut frontier = vec![String::new()];
-    for _ in 0..(slen + 2) {
+    for _ in 0..(slen + 1) {
         let mut next = vec![];
         for f in frontier.iter() {
             for a in ALPHABET.iter().chain(SUFFIX_EXTRA.iter()) {
